@@ -31,7 +31,19 @@
      - post_gc unlocking a bucket pre_gc did not lock
      - a hit whose entry names a node that is not stored in the replayed table (dangling weak
        edge), or differs from the entry written last, or in a bucket cleared and not written since
-   are violations (kind=prop). *)
+   are violations (kind=prop).
+
+   C07m -- MTBDD (kind mtbdd): terminals are created and collected inside the blocks
+   (`DynamicTerminalManager`), but the terminal manager has no hooks: terminal ids (index-based
+   manager: ids below 0x2000000) that an event names are taken as stored (the replay of the table
+   and cache events only constrains the INNER nodes there).  The tie for the terminal protocol
+   (terminal collection only between pre_gc and post_gc, coq/Mgr/ConcTerm.v) is the END-STATE audit:
+   every snapshot of an mtbdd case is lifted by the extracted [Model.lift_terms] (listed terminals,
+   one counted edge per handle / child edge) and must satisfy the extracted invariant checker
+   [Model.tinv_b] (theorem C07_term_lift_inv: pairwise distinct terminal ids and VALUES -- two slots
+   with one value break hash consing --, every handle and child edge names a listed terminal);
+   values and reference counts are audited by the DD driver on the same trace (sequential
+   specification of every result, terminals surviving / missing after gc). *)
 open Conv
 
 (* ---- trace parsing (the parts of ocaml/dd_types.ml needed here; that file depends on the
@@ -47,12 +59,20 @@ let show_phase = function
 let kind_of = function
   | "bdd" -> Model.KBdd | "bcdd" -> Model.KBcdd | "zbdd" -> Model.KZbdd
   | "mtbdd" -> Model.KMtbdd | "tdd" -> Model.KTdd | k -> failwith ("kind " ^ k)
+(* MTBDD / TDD terminal values: interned in order of first appearance (only equality matters) *)
+let interned : (string, int) Hashtbl.t = Hashtbl.create 64
 let term_code kname (v : string) : int =
   match kname, v with
   | "bdd", "False" -> 0 | "bdd", "True" -> 1
   | "bcdd", _ -> 1
   | "zbdd", "Empty" -> 0 | "zbdd", "Base" -> 1
+  | ("mtbdd" | "tdd"), _ ->
+    (match Hashtbl.find_opt interned v with
+     | Some c -> c
+     | None -> let c = Hashtbl.length interned in Hashtbl.add interned v c; c)
   | _, _ -> failwith ("terminal " ^ v)
+(* index-based manager, MTBDD: `terminals: 0x2000000` (crates/oxidd/src/mtbdd.rs) *)
+let mtbdd_terminal_bound = 0x2000000
 let parse_edge (t : string) : Model.edge =
   let n = String.length t in
   let tag = n > 0 && t.[n - 1] = '~' in
@@ -112,12 +132,56 @@ let () =
         stat "bad_C07" 1;
         if not !failed then (failed := true; verdict_bad c step kind ("prop=C07 " ^ msg)) in
       let show_id p = "n" ^ Z.to_string (Z.pred (z_of_pos p)) in
-      let is_term (id : string) = List.exists (fun (t, _) -> string_of_n t = id) !terms in
+      let dyn_terms = (kname = "mtbdd") in
+      let is_term (id : string) =
+        if dyn_terms then (match int_of_string_opt id with Some i -> i < mtbdd_terminal_bound | None -> false)
+        else List.exists (fun (t, _) -> string_of_n t = id) !terms in
       let rec edges = function
         | id :: tag :: r ->
           let e = if is_term id then Model.RT (n_of_string id) else Model.RN (pos_of_z (Z.succ (Z.of_string id))) in
+          (* C07m: terminals come and go without events: a terminal id an event names counts as stored *)
+          if dyn_terms && is_term id && not (List.exists (fun (t, _) -> string_of_n t = id) !terms) then (
+            stat "ev_terminal_ids_first_seen_in_events" 1;
+            terms := (n_of_string id, n_of_int (1_000_000_000 + int_of_string id)) :: !terms);
           { Model.eref = e; Model.etag = (tag <> "0") } :: edges r
         | _ -> [] in
+      (* C07m: end-state audit of the terminal table (extracted checker of coq/Mgr/ConcTerm.v) *)
+      let audit_terminals step (body : string) (snap_terms : (Model.n * Model.n) list) after_block =
+        let refs = ref [] in
+        let term_of e = match (parse_edge e).Model.eref with Model.RT x -> Some x | Model.RN _ -> None in
+        List.iter
+          (fun piece ->
+            match split_ws piece with
+            | "H" :: slot :: e :: _ ->
+              (match term_of e with Some x -> refs := (nat (int_of_string slot land 0xffff), x) :: !refs | None -> ())
+            | "N" :: _lvl :: _id :: _stored :: _rc :: ch ->
+              List.iter (fun e -> match term_of e with Some x -> refs := (nat 65536, x) :: !refs | None -> ()) ch
+            | _ -> ())
+          (split_bar body);
+        stat "chk_C07_terminal_table" 1;
+        if after_block then stat "chk_C07_terminal_table_after_block" 1;
+        stat "terminals_audited" (List.length snap_terms);
+        stat "terminal_edges_audited" (List.length !refs);
+        let st = Model.lift_terms snap_terms !refs (nat 1) in
+        if not (Model.tinv_b st) then (
+          let where = if after_block then "after the parallel block" else "in the snapshot" in
+          if not (Model.xterms_unique_b st) then (
+            let rec dup = function
+              | (i, v) :: r ->
+                (match List.find_opt (fun (j, w) -> w = v || j = i) r with
+                 | Some (j, _) -> Some (i, j)
+                 | None -> dup r)
+              | [] -> None in
+            match dup snap_terms with
+            | Some (i, j) ->
+              fail step "prop" (Printf.sprintf "terminal table %s: the slots t%s and t%s hold the same terminal (hash consing broken: duplicate terminal)" where (string_of_n i) (string_of_n j))
+            | None -> fail step "prop" (Printf.sprintf "terminal table %s: duplicate terminal" where))
+          else if not (Model.counts_exact_b st) then (
+            match List.find_opt (fun (_, x) -> not (List.exists (fun (t, _) -> t = x) snap_terms)) !refs with
+            | Some (_, x) ->
+              fail step "prop" (Printf.sprintf "terminal table %s: a handle or a stored node refers to terminal t%s, which the terminal manager does not hold (dangling edge to a collected terminal)" where (string_of_n x))
+            | None -> fail step "corr" "driver: counts_exact_b false on a lifted snapshot")
+          else fail step "corr" "driver: tinv_b false on a lifted snapshot") in
       let shape_list (t : Model.ctable) =
         List.sort compare
           (List.map (fun (id, nd) ->
@@ -138,6 +202,7 @@ let () =
                    fail i "prop"
                      (Printf.sprintf "table after the parallel block differs from the replayed log: only in the model {%s}, only in the manager {%s}"
                         (String.concat " " (List.map show (only a b))) (String.concat " " (List.map show (only b a))))));
+               if dyn_terms then audit_terminals i res snap_terms !replayed;
                table := snap_tbl; terms := snap_terms; nl := snap_nl;
                valid := true; replayed := false
              with Failure m -> fail i "corr" ("driver: " ^ m))
